@@ -110,12 +110,35 @@ def run(E: Engine, rep: Report, tier: str) -> dict:
                 return v
         return c[2][i] if i < len(c[2]) else None
 
+    from .symutil import branches as _br0, simplify_under as _su0
+
+    VD = "Q_ch.validate_duration(pulse.duration)"
     ok = bool(pulses_)
-    for c in pulses_:
-        for i_, w in ((0, "amplitude"), (1, "detuning")):
-            v = _field(c, i_, w)
-            m = _is0(v, f"pulse.{w} if Q_d == pulse.duration else pulse.{w}.change_duration(Q_d)") if v is not None else None
-            ok = ok and m is not None and _is0(m["Q_d"], "Q_ch.validate_duration(pulse.duration)") is not None
+    n_chk = 0
+    for conds_, leaf_ in _br0(rv_):
+        lits_ = tuple(x for c_ in conds_ for x in _sym0.conj_of(c_))
+        for c in [t for t in _sym0.subterms(leaf_) if t[0] == "call" and t[1] == ("name", "Pulse")]:
+            for i_, w in ((0, "amplitude"), (1, "detuning")):
+                v = _field(c, i_, w)
+                if v is None:
+                    ok = False
+                    continue
+                n_chk += 1
+                v = _su0(v, lits_)
+                m = _is0(v, f"pulse.{w} if Q_d == pulse.duration else pulse.{w}.change_duration(Q_d)")
+                if m is not None and _is0(m["Q_d"], VD) is not None:
+                    continue
+                # the two alternatives written as two returns: the original waveform where the validated duration equals
+                # the pulse's, change_duration(<validated duration>) where it differs
+                same = any((mm := _is0(x, "Q_d == pulse.duration")) is not None and _is0(mm["Q_d"], VD) is not None for x in lits_)
+                differs = any((mm := _is0(x, "Q_d != pulse.duration")) is not None and _is0(mm["Q_d"], VD) is not None for x in lits_)
+                m2 = _is0(v, f"pulse.{w}.change_duration(Q_d)")
+                if same and v == _sym0.Pattern(f"pulse.{w}").term:
+                    continue
+                if differs and m2 is not None and _is0(m2["Q_d"], VD) is not None:
+                    continue
+                ok = False
+    ok = ok and n_chk >= 2
     rep.check(ok, "PASS", "Sequence._validate_and_adjust_pulse|adjusted-duration-reaches-waveforms", "returned pulse's waveforms come from change_duration(<validate_duration result>) (or are the originals when unchanged)", f"the validated/adjusted duration no longer flows into the returned pulse: {_sh0(rv_, 300)}", E.where(vap))
     # DMM.validate_pulse passes super().validate_pulse
     def est_super(fl_: FunctionFlow, e: Event) -> bool:
